@@ -513,7 +513,9 @@ func (e *Enc) frameObligations(written map[string]bool, entry *State, final *Sta
 			}
 		}
 		if refIndexed {
-			conds = append(conds, "(<= "+sk+" "+entry.alloc+")")
+			// objects that existed at entry: references 1..alloc (nil = 0 is not an object: a nil slice has no backing
+			// cells, a loop frame `contents(s)` evaluated on a still-nil slice havocs nothing that can be read)
+			conds = append(conds, "(<= "+sk+" "+entry.alloc+")", "(> "+sk+" 0)")
 		}
 		goal := implies(and(conds...), eq("(select "+exitT+" "+sk+")", "(select "+entryT+" "+sk+")"))
 		e.addObl(&Obligation{Name: prefix + k, Kind: "frame", Label: "", Clause: what + " — " + k + " unchanged elsewhere", Reach: reach, Goal: goal})
